@@ -63,7 +63,34 @@ def run(prog: Program, chk: Check):
         raise AnalysisError("anchor vanished: threading.Thread(target=self.write) in DataCollection.__init__")
     writer: Set[str] = {wr.key} | cg.may_call(wr)
     bw = dcc.methods["blocking_write"]
-    stage = dsc.methods["stage_for_write"]
+    stage = dsc.methods.get("stage_for_write")  # None when the swap is written in place at its (two) call sites
+
+    def swap_stmt(st):
+        """`X.wbuf, X.rbuf = X.rbuf, []`: the receiver X, or None"""
+        if isinstance(st, ast.Assign) and len(st.targets) == 1 and isinstance(st.targets[0], ast.Tuple) and isinstance(st.value, ast.Tuple) \
+                and len(st.targets[0].elts) == 2 and len(st.value.elts) == 2:
+            t0, t1 = st.targets[0].elts
+            v0, v1 = st.value.elts
+            if isinstance(t0, ast.Attribute) and isinstance(t1, ast.Attribute) and t0.attr == "wbuf" and t1.attr == "rbuf" and norm(t0.value) == norm(t1.value) \
+                    and norm(v0) == f"{norm(t0.value)}.rbuf" and norm(v1) in ("[]", "list()"):
+                return norm(t0.value)
+        return None
+
+    def stage_nodes(g, recv=None):
+        """CFG nodes that hand the read buffer over: a call of stage_for_write, or the swap written in place"""
+        out = []
+        for n in g.nodes:
+            if stage is not None and any(is_method_call(c, "stage_for_write") and (recv is None or path_of(recv_of(c)) == recv) for c in node_calls(n)):
+                out.append(n)
+            elif n.kind == "stmt" and swap_stmt(n.ast) is not None and (recv is None or swap_stmt(n.ast) == recv):
+                out.append(n)
+        return out
+
+    inline_swaps = [(f, st) for m in prog.modules.values() if m.name.startswith("pyrtma.data_logger") for f in m.functions.values() for st in walk_local(f.node) if swap_stmt(st) is not None]
+    if stage is None and not inline_swaps:
+        raise AnalysisError("anchor vanished: DataSet.stage_for_write (and no in-place buffer swap)")
+    stage_key = stage.key if stage is not None else None
+    swap_hosts = {f.key for f, _ in inline_swaps}
 
     # ---- O buffer ownership ------------------------------------------------------------------------------
     O = chk.rule("C17-O", "rbuf is appended only by update and rebound only by stage_for_write (fresh list); wbuf is rebound only by stage_for_write; the writer never touches rbuf", 7,
@@ -75,8 +102,13 @@ def run(prog: Program, chk: Check):
             for buf in ("rbuf", "wbuf"):
                 for n, kind in attr_accesses(f, buf):
                     key = fkey(f, f"{buf}:{kind}:{norm(getattr(n, '_parent', n))[:50]}")
+                    in_swap = any(f2 is f and any(x is n for x in ast.walk(st)) for f2, st in inline_swaps)
+                    if in_swap:
+                        # part of `X.wbuf, X.rbuf = X.rbuf, []` written in place: its host is checked under C17-G, its shape is the swap
+                        O.decide(f.key not in writer, key, where(f, n), f"{buf} handed over by the in-place swap in {f.qual}", f"the buffer swap in {f.qual} runs in the writer thread role")
+                        continue
                     if kind == "rebind":
-                        okk = f.key == stage.key or (f.cls is dsc and f.name == "__init__")
+                        okk = f.key == stage_key or (f.cls is dsc and f.name == "__init__")
                         O.decide(okk, key, where(f, n), f"{buf} bound in {f.qual}", f"{buf} is rebound in {f.qual} (only stage_for_write may swap the buffers)")
                     elif kind.startswith("call:"):
                         meth = kind[5:]
@@ -88,28 +120,39 @@ def run(prog: Program, chk: Check):
                             O.decide(okk, key, where(f, n), "wbuf.clear() by the writer after writing", f"wbuf.{meth}() in {f.qual}")
                     else:
                         if buf == "rbuf":
-                            okk = f.key == stage.key and f.key not in writer
+                            okk = f.key == stage_key and f.key not in writer
                             O.decide(okk, key, where(f, n), "rbuf read only to hand it over", f"rbuf read in {f.qual}" + (" (writer thread role)" if f.key in writer else ""))
                         else:
                             okk = f.cls is dsc and f.name in ("write", "stop", "subdivide")
                             O.decide(okk, key, where(f, n), f"wbuf read in DataSet.{f.name}", f"wbuf read in {f.qual}")
     # shape of the swap: wbuf = rbuf ; rbuf = <fresh list>
-    sg = C.build(stage.node)
-    mv = [n for n in sg.nodes if n.kind == "stmt" and isinstance(n.ast, ast.Assign) and norm(n.ast.targets[0]) == "self.wbuf" and norm(n.ast.value) == "self.rbuf"]
-    fresh = [n for n in sg.nodes if n.kind == "stmt" and isinstance(n.ast, ast.Assign) and norm(n.ast.targets[0]) == "self.rbuf" and norm(n.ast.value) in ("[]", "list()")]
-    okswap = len(mv) == 1 and len(fresh) == 1 and not flow.must_precede(sg, mv, fresh) and not flow.must_follow(sg, [sg.entry], fresh, exits=("exit",))
-    O.decide(okswap, fkey(stage, "swap"), where(stage), "the same list moves to wbuf and a fresh list is installed in rbuf, in that order",
-             "stage_for_write does not (wbuf = rbuf; rbuf = fresh list): recorded messages can be lost or cleared by the writer")
-    if stage.key in writer:
-        O.bad(fkey(stage, "called-by-writer"), where(stage), "stage_for_write is reachable from the writer thread")
+    if stage is not None:
+        sg = C.build(stage.node)
+        mv = [n for n in sg.nodes if n.kind == "stmt" and isinstance(n.ast, ast.Assign) and norm(n.ast.targets[0]) == "self.wbuf" and norm(n.ast.value) == "self.rbuf"]
+        fresh = [n for n in sg.nodes if n.kind == "stmt" and isinstance(n.ast, ast.Assign) and norm(n.ast.targets[0]) == "self.rbuf" and norm(n.ast.value) in ("[]", "list()")]
+        okswap = len(mv) == 1 and len(fresh) == 1 and not flow.must_precede(sg, mv, fresh) and not flow.must_follow(sg, [sg.entry], fresh, exits=("exit",))
+        if not okswap and len(stage_nodes(sg, "self")) == 1 and not flow.must_follow(sg, [sg.entry], stage_nodes(sg, "self"), exits=("exit",)):
+            okswap = True  # stage_for_write itself written as the tuple swap
+        O.decide(okswap, fkey(stage, "swap"), where(stage), "the same list moves to wbuf and a fresh list is installed in rbuf, in that order",
+                 "stage_for_write does not (wbuf = rbuf; rbuf = fresh list): recorded messages can be lost or cleared by the writer")
+        if stage.key in writer:
+            O.bad(fkey(stage, "called-by-writer"), where(stage), "stage_for_write is reachable from the writer thread")
+    for f_, st_sw in inline_swaps:
+        if stage is not None and f_.key == stage.key:
+            continue
+        O.ok(fkey(f_, "swap-in-place"), where(f_, st_sw), "the same list moves to wbuf and a fresh list is installed in rbuf (one simultaneous assignment)")
 
     # ---- G stage only when no write is pending ---------------------------------------------------------------
     G = chk.rule("C17-G", "every recorder path to stage_for_write passes evidence that the previous hand-off completed", 3,
                  "restaging while a write is pending overwrites a staged-but-unwritten buffer (loss)")
-    callers = cg.call_sites_of(stage.key)
+    callers = cg.call_sites_of(stage.key) if stage is not None else []
     allowed = {dcc.methods["trigger_write"].key, dsc.methods["stop"].key}
     for cf, cc in callers:
         G.decide(cf.key in allowed, fkey(cf, cc), where(cf, cc), "stage_for_write called from trigger_write / DataSet.stop", f"stage_for_write called from {cf.qual}")
+    for f_, st_sw in inline_swaps:
+        if stage is not None and f_.key == stage.key:
+            continue
+        G.decide(f_.key in allowed, fkey(f_, "swap-in-place"), where(f_, st_sw), "buffers swapped in trigger_write / DataSet.stop", f"the buffers are swapped in {f_.qual}")
 
     def evidence_edge(e) -> bool:
         if e.cond is None:
@@ -148,7 +191,7 @@ def run(prog: Program, chk: Check):
 
     tw = dcc.methods["trigger_write"]
     tg = C.build(tw.node)
-    stg = [n for n in tg.nodes if any(is_method_call(c, "stage_for_write") for c in node_calls(n))]
+    stg = stage_nodes(tg)
     clr = ev(tg, "write_finished", "clear")
     st_ = ev(tg, "write_to_disk", "set")
     S.decide(bool(stg) and len(st_) == 1 and not any(s.id in flow.reach(tg, [st_[0].id]) for s in stg), fkey(tw, "stage-before-token"), where(tw), "all staging precedes write_to_disk.set()", "staging can happen after the token was handed to the writer")
@@ -230,11 +273,17 @@ def run(prog: Program, chk: Check):
             and not any(isinstance(s, (ast.Break, ast.Continue, ast.If)) for s in walk_local(lp[0]) if s is not lp[0])
     F.decide(okf, fkey(sp, "stop-then-close-each"), where(sp), "every data set is stopped (staged + finalised) and then closed", "DataCollection.stop does not stop-then-close every data set unconditionally")
     flag = [n for n in spg.nodes if n.kind == "stmt" and isinstance(n.ast, ast.Assign) and norm(n.ast.targets[0]).endswith(".collection_stopped")]
-    F.decide(bool(flag) and bool(dstop) and not flow.must_precede(spg, flag, dstop), fkey(sp, "collection_stopped-before-stop"), where(sp), "collection_stopped is set before the data set is finalised (no subdivision during shutdown)",
-             "collection_stopped is not set before ds.stop()")
     dst = dsc.methods["stop"]
     dg = C.build(dst.node)
-    s1 = [n for n in dg.nodes if any(is_method_call(c, "stage_for_write") and path_of(recv_of(c)) == "self" for c in node_calls(n))]
+    s1 = stage_nodes(dg, "self")
+    okflag = bool(flag) and bool(dstop) and not flow.must_precede(spg, flag, dstop)
+    if not flag:
+        # ... or DataSet.stop sets it itself before it hands the last buffer over
+        flag2 = [n for n in dg.nodes if n.kind == "stmt" and isinstance(n.ast, ast.Assign) and norm(n.ast.targets[0]) == "self.collection_stopped"
+                 and isinstance(n.ast.value, ast.Constant) and n.ast.value.value is True]
+        okflag = bool(flag2) and bool(s1) and not flow.must_precede(dg, flag2, s1)
+    F.decide(okflag, fkey(sp, "collection_stopped-before-stop"), where(sp), "collection_stopped is set before the data set is finalised (no subdivision during shutdown)",
+             "collection_stopped is not set before ds.stop()")
     s2 = [n for n in dg.nodes if any(is_method_call(c, "finalize") and c.args and norm(c.args[0]) == "self.wbuf" for c in node_calls(n))]
     F.decide(len(s1) == 1 and len(s2) == 1 and not flow.must_precede(dg, s1, s2) and not flow.must_follow(dg, [dg.entry], s2, exits=("exit",)), fkey(dst, "stage-then-finalize"), where(dst),
              "DataSet.stop stages, then finalises the staged buffer", "DataSet.stop does not stage and then finalize(self.wbuf) on every path")
